@@ -124,6 +124,44 @@ def parse_lines(rng, pools, n):
     return out
 
 
+def display_lines(rng, pools, n, maxtok=36):
+    """`value.format(picture)` written through `Display` (the LazyFormat route, not `Formatter::format` into a String):
+    composite pictures up to the 36-token limit, long names, FF9, wide interval fields and long blank runs, so that the
+    rendered text is often longer than any fixed-size intermediate buffer would hold."""
+    out = []
+    for ln in format_lines(rng, pools, n, maxtok, applicable_only=True):
+        w = ln.split(" ")
+        out.append("F.display %s %s %s" % (w[1], w[2], w[3]))
+    long_pics = ["Day, Month DD, YYYY HH24:MI:SS.FF6 AM Day Month Dy Mon", "FF9 " * 18, "DD" + " " * 70 + "HH24",
+                 "MONTH MONTH MONTH MONTH MONTH MONTH MONTH MONTH", "DAY-" * 17 + "DAY", "YYYY" + " " * 300 + "MM",
+                 "HH24:MI:SS.FF9 A.M. " * 7]
+    for pic in long_pics:
+        for ty in TYPES:
+            for v in pools.get(ty)[:6] + [rng.choice(pools.get(ty)) for _ in range(6)]:
+                out.append("F.display %s %d %s" % (ty, v, hx(pic)))
+    # September + Wednesday: the longest names
+    for v in (1632315845123456, 1632268800000000):
+        out.append("F.display TS %d %s" % (v, hx(long_pics[0])))
+    return out
+
+
+def long_garbage_lines():
+    """Long inputs that fail at a punctuation position, padded with multi-byte characters at every alignment: error
+    paths that echo or truncate the input must not split a character (and must not panic)."""
+    out = []
+    heads = {"D": "2020/01/0", "T": "10-20", "TS": "2020/01/01 1", "YM": "+0001/02", "DT": "+1 10-20", "OD": "2020/01/01 1"}
+    pics = {"D": "YYYY-MM-DD", "T": "HH24:MI:SS.FF6", "TS": "YYYY-MM-DD HH24:MI:SS.FF6", "YM": "YYYY-MM",
+            "DT": "DD HH24:MI:SS.FF6", "OD": "YYYY-MM-DD HH24:MI:SS"}
+    for ty, head in heads.items():
+        for ch in ("é", "中", "\U0001F600"):
+            for n in list(range(20, 80, 1 if ch == "é" else 3)) + [100, 200, 400, 1000]:
+                for pad in ("", "x"):
+                    text = head + pad + ch * n
+                    out.append("S.de_str %s %s" % (ty, hx(text)))
+                    out.append("F.parse %s %s %s %s" % (ty, hx(text), hx(pics[ty]), CLK))
+    return out
+
+
 def wild_parse_lines(rng, pools, n):
     out = []
     for _ in range(n):
@@ -174,8 +212,10 @@ def streams_for(pid, tier, rng):
                         for t in (0, 3723000004) for sgn in (1, -1) for pic in ("DD HH24:MI:SS", "DD", "HH24 DD")
                         if d * USECS_PER_DAY + t <= DT_MAX], ("off", "on")))
         S.append(Stream("format", format_lines(rng, pools, n, 10, applicable_only=False), ("off", "on")))
+        S.append(Stream("Display route", display_lines(rng, pools, n // 4), ("off", "on")))
         S.append(Stream("parse (generated)", parse_lines(rng, pools, n), ("off", "on")))
         S.append(Stream("parse (byte-random)", wild_parse_lines(rng, pools, n), ("off", "on")))
+        S.append(Stream("long non-ASCII inputs", long_garbage_lines(), ("off", "on")))
         L = 3 if not thorough else 4
         S.append(Stream("all pictures up to length %d" % L,
                         ["@range 0 %d 1 %d F.try_new_idx %s %d %%" % (40 ** k - 1, BLK, hx(tg.ALPHABET40), k)
@@ -205,6 +245,7 @@ def streams_for(pid, tier, rng):
         S.append(Stream("all microseconds x FF", lines, exhaustive=thorough, spec=True))
         S.append(Stream("composite pictures", format_lines(rng, pools, 30000 * scale, 36, applicable_only=True), spec=True))
         S.append(Stream("inapplicable tokens", format_lines(rng, pools, 5000 * scale, 4, applicable_only=False), spec=True))
+        S.append(Stream("Display route (value.format(picture) written with {})", display_lines(rng, pools, 8000 * scale), spec=True))
         S.append(Stream("interval day widths", ["F.format DT %d %s -1" % (sgn * (d * USECS_PER_DAY + t), hx(pic))
                         for d in list(range(0, 41)) + [99, 100, 101, 999, 1000, 99999999, 100000000]
                         for t in (0, 3723000004) for sgn in (1, -1) for pic in ("DD HH24:MI:SS.FF", "DD", "HH24 DD")
@@ -420,6 +461,7 @@ def streams_for(pid, tier, rng):
                             oracles=(oracle_no_panic, oracle_range)))
         S.append(Stream("string round trip + perturbed", serde_str_lines(rng, pools, 10000 * scale),
                         oracles=(oracle_no_panic,)))
+        S.append(Stream("long non-ASCII payloads", long_garbage_lines(), ("off", "on"), oracles=(oracle_no_panic,)))
     elif pid == "C16":
         S.append(ops_stream("oracle date ops x pools", rng, pools, ops_with_prefix("OD.") + ["TS.oracle_add_days",
                             "TS.oracle_sub_days", "TS.oracle_sub_date"], cap * 2))
@@ -472,6 +514,19 @@ def streams_for(pid, tier, rng):
                 lines += ["TS.from_T %d %s" % (t, c), "OD.from_T %d %s" % (t, c)]
         S.append(Stream("now / from time", lines))
         S.append(Stream("generated texts under random clocks", parse_lines(rng, pools, 20000 * scale)))
+        # ONE Formatter used twice while the local date changes in between (a compiled picture must not keep the date it read)
+        lines = []
+        turns = [("1999 12 31 23 59 59 999999", "2000 1 1 0 0 0 0"), ("2024 2 29 23 59 59 0", "2024 3 1 0 0 0 0"),
+                 ("2023 12 31 12 0 0 0", "2024 1 1 12 0 0 0"), ("2099 12 31 0 0 0 0", "2100 1 1 0 0 0 0"),
+                 ("2024 3 15 10 0 0 0", "2024 3 15 10 0 0 0"), ("999 12 31 1 1 1 1", "1000 1 1 1 1 1 1")]
+        clocks = pools.get("clock")
+        for text, pic in pics + [("07-03-04 05:06:07", "YY-MM-DD HH24:MI:SS"), ("10:30", "HH24:MI"), ("", "YYYY"), ("x", "DD")]:
+            for ty in ("D", "TS", "OD"):
+                for c1, c2 in turns:
+                    lines.append("F.parse2 %s %s %s %s %s" % (ty, hx(text), hx(pic), c1, c2))
+                for _ in range(4 * scale):
+                    lines.append("F.parse2 %s %s %s %s %s" % (ty, hx(text), hx(pic), rng.choice(clocks), rng.choice(clocks)))
+        S.append(Stream("one Formatter, two parses, the date changes in between", lines))
     elif pid == "C19":
         L = 4 if not thorough else 5
         S.append(Stream("all pictures up to length %d" % L,
